@@ -72,6 +72,7 @@ func (commander *Commander) GetLedgerStore() Store {
 }
 
 func (commander *Commander) exec(ctx context.Context, parameters Parameters, script ledger.RunScript,
+	isOutcome func(log *ledger.ChainedLog) bool,
 	logComputer func(tx *ledger.Transaction, accountMetadata map[string]metadata.Metadata) *ledger.Log) (*ledger.ChainedLog, error) {
 
 	if script.Script.Plain == "" {
@@ -83,7 +84,7 @@ func (commander *Commander) exec(ctx context.Context, parameters Parameters, scr
 	}
 
 	execContext := newExecutionContext(commander, parameters)
-	return execContext.run(ctx, func(executionContext *executionContext) (*ledger.ChainedLog, chan struct{}, error) {
+	return execContext.run(ctx, isOutcome, func(executionContext *executionContext) (*ledger.ChainedLog, chan struct{}, error) {
 		if script.Reference != "" {
 			if err := commander.referencer.take(referenceTxReference, script.Reference); err != nil {
 				verifhook.Yield(ctx, "ref.busy", "ref", script.Reference)
@@ -172,7 +173,10 @@ func (commander *Commander) exec(ctx context.Context, parameters Parameters, scr
 }
 
 func (commander *Commander) CreateTransaction(ctx context.Context, parameters Parameters, script ledger.RunScript) (*ledger.Transaction, error) {
-	log, err := commander.exec(ctx, parameters, script, ledger.NewTransactionLog)
+	log, err := commander.exec(ctx, parameters, script, func(log *ledger.ChainedLog) bool {
+		_, ok := log.Data.(ledger.NewTransactionLogPayload)
+		return ok && log.Type == ledger.NewTransactionLogType
+	}, ledger.NewTransactionLog)
 	if err != nil {
 		return nil, err
 	}
@@ -186,7 +190,12 @@ func (commander *Commander) CreateTransaction(ctx context.Context, parameters Pa
 
 func (commander *Commander) SaveMeta(ctx context.Context, parameters Parameters, targetType string, targetID interface{}, m metadata.Metadata) error {
 	execContext := newExecutionContext(commander, parameters)
-	_, err := execContext.run(ctx, func(executionContext *executionContext) (*ledger.ChainedLog, chan struct{}, error) {
+	_, err := execContext.run(ctx, func(log *ledger.ChainedLog) bool {
+		payload, ok := log.Data.(ledger.SetMetadataLogPayload)
+		return ok && log.Type == ledger.SetMetadataLogType &&
+			payload.TargetType == targetType && sameTargetID(payload.TargetID, targetID) &&
+			payload.Metadata.IsEquivalentTo(m)
+	}, func(executionContext *executionContext) (*ledger.ChainedLog, chan struct{}, error) {
 		var (
 			log *ledger.Log
 			at  = ledger.Now()
@@ -255,6 +264,11 @@ func (commander *Commander) RevertTransaction(ctx context.Context, parameters Pa
 			Postings: rt.Postings,
 			Metadata: rt.Metadata,
 		}, force),
+		func(log *ledger.ChainedLog) bool {
+			payload, ok := log.Data.(ledger.RevertedTransactionLogPayload)
+			return ok && log.Type == ledger.RevertedTransactionLogType &&
+				payload.RevertedTransactionID != nil && payload.RevertedTransactionID.Cmp(id) == 0
+		},
 		func(tx *ledger.Transaction, accountMetadata map[string]metadata.Metadata) *ledger.Log {
 			return ledger.NewRevertedTransactionLog(tx.Timestamp, transactionToRevert.ID, tx)
 		})
@@ -272,6 +286,16 @@ func (commander *Commander) RevertTransaction(ctx context.Context, parameters Pa
 func (commander *Commander) Close() {
 	commander.Batcher.Close()
 	commander.running.Wait()
+}
+
+// sameTargetID compares the target of a stored metadata log with the target of a request: an account address, or a
+// transaction id (a *big.Int in both; compared by value)
+func sameTargetID(stored, requested any) bool {
+	if a, ok := stored.(*big.Int); ok {
+		b, ok := requested.(*big.Int)
+		return ok && a != nil && b != nil && a.Cmp(b) == 0
+	}
+	return fmt.Sprint(stored) == fmt.Sprint(requested)
 }
 
 func (commander *Commander) chainLog(log *ledger.Log) *ledger.ChainedLog {
@@ -305,7 +329,11 @@ func (commander *Commander) allocateTXID(dryRun bool) *big.Int {
 
 func (commander *Commander) DeleteMetadata(ctx context.Context, parameters Parameters, targetType string, targetID any, key string) error {
 	execContext := newExecutionContext(commander, parameters)
-	_, err := execContext.run(ctx, func(executionContext *executionContext) (*ledger.ChainedLog, chan struct{}, error) {
+	_, err := execContext.run(ctx, func(log *ledger.ChainedLog) bool {
+		payload, ok := log.Data.(ledger.DeleteMetadataLogPayload)
+		return ok && log.Type == ledger.DeleteMetadataLogType &&
+			payload.TargetType == targetType && sameTargetID(payload.TargetID, targetID) && payload.Key == key
+	}, func(executionContext *executionContext) (*ledger.ChainedLog, chan struct{}, error) {
 		var (
 			log *ledger.Log
 			at  = ledger.Now()
